@@ -14,7 +14,12 @@ def duo(rep, thorough):
     # a Sewer / QueueGroundwater behind arcs that back up: an unforced push never raises what its tank holds (arrived plus
     # queued, measured on the tank's parts) above the capacity
     import mon_duo
-    return mon_duo.run(rep, thorough, "C05")
+    seen = mon_duo.run(rep, thorough, "C05") or {}
+    # whole models under Model.run (every third with travel-time and one-way arcs, every fifth with parallel arcs between the
+    # same pair of nodes): no arc admits more than its capacity within a timestep
+    import net_check
+    seen.update(net_check.monitor_models(rep, "C05", 500 if thorough else 90, 6 if thorough else 4))
+    return seen
 
 
 if __name__ == "__main__":
